@@ -5,3 +5,5 @@ import Ypv.Props.C02
 #print axioms Ypv.C02.coords_chain
 #print axioms Ypv.C02.required_coords_chain
 #print axioms Ypv.C02.kids_coords_chain
+#print axioms Ypv.C02.coords_reresolve
+#print axioms Ypv.C02.path_reresolves_partial
